@@ -174,6 +174,12 @@ class SkelEval(Eval):
             return list(v)
         if isinstance(v, V) and 'items' in v.fields:
             return list(v.fields['items'])
+        if isinstance(v, V):
+            # a model record that wraps exactly one list (the model's group record holds the binding list): code that keeps the bare list where
+            # the model keeps the record iterates that list
+            lists = [x for x in v.fields.values() if isinstance(x, list)]
+            if len(lists) == 1:
+                return list(lists[0])
         raise Unbound(t or ('not iterable', repr(v)[:40]))
 
     def ev_star(self, t):
